@@ -37,6 +37,7 @@ def request_pool(rng, policy):
         ("head", req(b"HEAD", b"/h", headers=[HOST])),
         ("expect-chunked", req(b"POST", b"/e", headers=[HOST, (b"Expect", b"100-continue"), (b"Transfer-Encoding", b"chunked")], chunks=[b"xyz"])),
         ("expect-cl", req(b"POST", b"/e", headers=[HOST, (b"Expect", b"100-Continue"), (b"Content-Length", b"4")], body=b"body")),
+        ("expect-close", req(b"POST", b"/e", headers=[HOST, (b"Expect", b"100-continue"), (b"Connection", b"close"), (b"Content-Length", b"4")], body=b"body")),
         ("expect-10", req(b"POST", b"/e", version=b"1.0", headers=[(b"Expect", b"100-continue"), (b"Content-Length", b"2")], body=b"ok")),
         ("invalid", b"BAD" + CRLF + CRLF),
         ("invalid", req(headers=[])),                      # 1.1 without Host
@@ -162,7 +163,7 @@ def history(rng, force=None, nconn=None, teardown=None, length=None, avoid_overl
         elif r < 72:
             lines.append("werr c%d %s" % (c, rng.choice(["eof", "reset", "other", "ssl_short", "ssl_shutdown", "opabort"])))
         elif r < 76:
-            lines.append("shutdone c%d %s" % (c, rng.choice(["ok", "ok", "eof", "ssl_short"])))
+            lines.append("shutdone c%d %s" % (c, rng.choice(["ok", "ok", "eof", "ssl_short", "other", "reset"])))
         elif r < 78:
             lines.append("late c%d %s" % (c, rng.choice(["read", "write"])))
         elif r < 84:
